@@ -40,12 +40,23 @@ def canon(node, names_lower=False, class_map=None, drop=None):
             if class_map:
                 cn = class_map.get(cn, cn)
             out = [cn]
-            for ch in kids(n):
+            it = getattr(n, "item", None)
+            if it is not None and not isinstance(n, BlockBase):
+                # statement label and construct name live on the reader item, not among the children
+                lab, nm = getattr(it, "label", None), getattr(it, "name", None)
+                if lab is not None:
+                    out.append(("@label", lab))
+                if nm:
+                    out.append(("@construct-name", nm.lower() if names_lower else nm))
+            ks = kids(n)
+            if not ks and isinstance(getattr(n, "string", None), str):
+                out.append(n.string)          # StringBase leaves (Name, ...) keep their text in .string, not in items
+            for ch in ks:
                 r = rec(ch)
                 if r is None and isinstance(ch, Base):
                     continue  # dropped node
                 out.append(r)
-            if names_lower and cn == "Name":
+            if names_lower and (cn == "Name" or cn.endswith("_Name")):
                 out = [cn] + [x.lower() if isinstance(x, str) else x for x in out[1:]]
             return tuple(out)
         if isinstance(n, (list, tuple)):
